@@ -89,6 +89,9 @@ def run_impl(cfg, servers, t0, times, outs, ops):
                     r = hc.get_many(list(op[2]), gets=bool(op[1]))
                 elif op[0] == 3:
                     r = hc.delete_many(list(op[1]), *op[2])
+                elif op[0] == 6:
+                    # a PUBLIC pass-through method: (6, name, key, positional args, keyword args, default_val of the method)
+                    r = getattr(hc, op[1])(op[2], *op[3], **dict(op[4]))
                 elif op[0] == 5:
                     # a PUBLIC read method with keyword arguments: (5, name, key, kwargs, miss value per the property)
                     r = getattr(hc, op[1])(op[2], **dict(op[3]))
@@ -117,6 +120,8 @@ def model_req(cfg, servers, t0, times, outs, ops):
             enc_ops.append((2, bool(op[1]), list(op[2])))
         elif op[0] == 3:
             enc_ops.append((3, list(op[1]), list(op[2])))
+        elif op[0] == 6:
+            enc_ops.append((0, CODE[op[1]], op[2], op[5], list(op[3]) + ([("KW", sorted(dict(op[4]).items()))] if op[4] else [])))
         elif op[0] == 5:
             # a faithful wrapper hands the inner client the caller's keyword arguments and falls back to the miss value
             enc_ops.append((0, CODE[op[1]], op[2], op[4], [("KW", sorted(dict(op[3]).items()))] if op[3] else []))
